@@ -236,6 +236,32 @@ def nested_macro_loops(looponly=False):
     return out
 
 
+def arithmetic_pairs():
+    """two consecutive built-in additions / truncated subtractions on one variable, every combination of operators and small
+    constants, from start values below, at and above the constants; on one line and one statement per line; target equal to
+    the operand or not; at top level and inside a called program"""
+    out = []
+    import itertools
+    for (o1, a), (o2, b) in itertools.product([('inc', 1), ('inc', 2), ('dec', 1), ('dec', 3), ('inc', 0)], repeat=2):
+        for v0 in (0, 2, 5):
+            for same in (True, False):
+                t = 'x1' if same else 'x2'
+                body = [['assign', 'x1', ('num', v0)], ['assign', t, (o1, 'x1', a)], ['assign', t, (o2, t, b)]]
+                for oneline in (True, False):
+                    for incallee in (False, True):
+                        if incallee and (not same or v0 == 5):
+                            continue
+                        if incallee:
+                            defs_, main_ = sources.number([('p', ['x1'], 'x1', [list(s_) for s_ in body[1:]])], [['assign', 'x0', ('call', 'p', [('num', v0)])]])
+                        else:
+                            defs_, main_ = sources.number([], [list(s_) for s_ in body])
+                        text, _ = sources.canonical(defs_, main_, None)
+                        if oneline:
+                            text = text.replace('\n', ' ')
+                        out.append({'defs': defs_, 'main': main_, 'mainf': b'm', 'files': {b'm': text.encode()}, 'layout': 'canonical', 'L': None, 'text': {'m': text}})
+    return out
+
+
 def translation_validation(ctx, cases, gen_out, want_shape=True):
     """run the proved validators (wfCheck, shapeCheck) of the Lean driver on every program the
     implementation emitted"""
@@ -517,6 +543,7 @@ def check_C01(ctx, thms=None):
     cases = gen_programs(ctx, ctx.n(900, 9000))
     cases += gen_programs(ctx, ctx.n(150, 1500), big=True, layouts=('canonical',))
     cases += nested_macro_loops()
+    cases += arithmetic_pairs()
     tri = [(c['mainf'], c['files'], c) for c in cases]
     a, b = front.corr_gen(ctx, tri, keys=['ok', 'code', 'maps'])
     val = translation_validation(ctx, cases, a, want_shape=True)
